@@ -127,6 +127,9 @@ def make(targets=None, timeout=3000):
     """Full .vo build (never -vos); -k so that one broken file does not hide the others."""
     coqproject()
     os.makedirs(os.path.join(ROOT, "ocaml", "build"), exist_ok=True)
+    for f in glob.glob(os.path.join(COQ, "extract", "Extract*.v")):
+        # the extraction files write to ../ocaml/build/<Cxx>/model.ml: the directory must exist
+        os.makedirs(os.path.join(ROOT, "ocaml", "build", os.path.basename(f)[len("Extract"):-2]), exist_ok=True)
     tgt = " ".join(targets) if targets else ""
     cmd = "ulimit -s unlimited 2>/dev/null; make -k -j%d COQC='timeout 1500 coqc' %s" % (NPROC, tgt)
     return sh(cmd, cwd=COQ, timeout=timeout)
